@@ -29,6 +29,7 @@ type Op struct {
 	RINR    bool   `json:"rinr,omitempty"`
 	ErrCh   bool   `json:"errch,omitempty"`
 	Pick    int    `json:"pick,omitempty"`
+	Pre     bool   `json:"pre,omitempty"` // waitexited: the waiter's context is already cancelled
 }
 
 // Case is a generated history plus schedule.
@@ -53,13 +54,13 @@ func genCase(prop string) func(t *rapid.T) Case {
 		switch prop {
 		case "C04":
 			c.Full = rapid.IntRange(0, 3).Draw(t, "full") == 0
-			kinds = append(kinds, "advance")
+			kinds = append(kinds, "advance", "cancelroot")
 		case "C05":
-			kinds = append(kinds, "setctx", "setroutine", "advance")
+			kinds = append(kinds, "setctx", "setroutine", "advance", "cancelroot", "waitexited")
 		case "C14":
 			c.Full = rapid.IntRange(0, 2).Draw(t, "full14") != 0 // 1/3: timer callbacks and exits may stay parked across calls
 			behs = []string{"success", "success", "error", "error", "untilcancel", "manual"}
-			kinds = []string{"setctx", "setctx", "setctx", "setroutine", "setroutine", "restart", "restart", "finish", "finish", "advance", "advance", "advance", "waitexited", "waitexited", "cancel", "errsend", "probe"}
+			kinds = []string{"setctx", "setctx", "setctx", "setroutine", "setroutine", "restart", "restart", "finish", "finish", "advance", "advance", "advance", "waitexited", "waitexited", "cancel", "errsend", "probe", "cancelroot"}
 		}
 		if prop == "C14" || rapid.IntRange(0, 2).Draw(t, "hasretry") == 0 {
 			if prop != "C14" || rapid.IntRange(0, 3).Draw(t, "retry") != 0 {
@@ -88,6 +89,7 @@ func genCase(prop string) func(t *rapid.T) Case {
 			case "waitexited":
 				op.RINR = rapid.Bool().Draw(t, "rinr")
 				op.ErrCh = rapid.IntRange(0, 2).Draw(t, "errch") == 0
+				op.Pre = rapid.IntRange(0, 3).Draw(t, "pre") == 0
 			case "cancel", "errsend":
 				op.Pick = rapid.IntRange(0, 3).Draw(t, "pick")
 			}
@@ -257,6 +259,7 @@ func body(c *sched.Ctl, cs Case, v *ev.Verdict) {
 	waiterWoken := false
 	recByPtr := map[any]*mRec{}
 	staleTimerSections := 0
+	rootCancelled := false
 
 	returningNow := func() bool { // hm held: some instance entered, cancelled and not yet returned
 		for _, in := range insts {
@@ -424,6 +427,7 @@ func body(c *sched.Ctl, cs Case, v *ev.Verdict) {
 		}
 		if w, ok := wByLabel[tk.Label]; ok {
 			w.samples++
+			m.normalize() // WaitExited forgets a root context its owner cancelled
 			w.lastOK, w.lastErr = m.returnable(w.rinr)
 			return
 		}
@@ -560,6 +564,17 @@ func body(c *sched.Ctl, cs Case, v *ev.Verdict) {
 				continue
 			}
 			ok, val := m.returnable(w.rinr)
+			if m.ctxID != 0 && m.dead[m.ctxID] {
+				// the owner cancelled the root context and the container has not looked at it
+				// since: nothing woke the waiter, so it cannot be expected to have noticed
+				ok = false
+			}
+			if rootCancelled && (m.rec == nil || m.ctxID == 0) {
+				// "nothing is running" became true when a call noticed the dead root context;
+				// the library does not broadcast for that (the waiter is woken by the exit of
+				// the cancelled instance), and the property does not speak about this return
+				ok = false
+			}
 			switch {
 			case w.cancelled:
 				fail("C14", "routine:waitexited-cancelled-not-returned", "%s: WaitExited #%d whose context is cancelled is still blocked", where, w.id)
@@ -832,6 +847,10 @@ func body(c *sched.Ctl, cs Case, v *ev.Verdict) {
 			hm.Unlock()
 			ctx, cancel := context.WithCancel(context.Background())
 			w.cancel = cancel
+			if op.Pre {
+				w.cancelled = true
+				cancel()
+			}
 			if op.ErrCh {
 				w.errCh = make(chan error, 1)
 			}
@@ -895,6 +914,18 @@ func body(c *sched.Ctl, cs Case, v *ev.Verdict) {
 				hm.Unlock()
 				w.errCh <- e
 			}
+		case "cancelroot":
+			// the owner of the container's current root context cancels it directly
+			hm.Lock()
+			cid := m.ctxID
+			if cid == 0 || m.dead[cid] {
+				hm.Unlock()
+				return false
+			}
+			m.CancelRoot(cid)
+			rootCancelled = true
+			hm.Unlock()
+			cancels[cid]()
 		case "probe":
 			if c.Settle(true) {
 				quiescent(fmt.Sprintf("probe op %d", i))
@@ -1010,6 +1041,9 @@ func body(c *sched.Ctl, cs Case, v *ev.Verdict) {
 	}
 	if staleTimerSections > 0 {
 		v.Class("callback-of-a-stopped-retry-timer-ran")
+	}
+	if rootCancelled {
+		v.Class("root-context-cancelled-by-its-owner")
 	}
 }
 
